@@ -394,6 +394,9 @@ let run_lit_case (t : toks) : string =
     "LSCHEMA class_free " ^ (if class_free_schema !lschema then "1" else "0")
     ^ " lits_typed " ^ (if lits_typed parse_f64 !lschema then "1" else "0")
     ^ " items " ^ string_of_int (List.length !lschema.ls_items) ^ " consts " ^ string_of_int (List.length !lschema.ls_consts)
+    (* hypotheses of C20_default_encoding_conforms on the projected schema *)
+    ^ " wf_proj " ^ (if wf_schema (proj parse_f64 !lschema) then "1" else "0")
+    ^ " elems_proj " ^ (if elems_ok (proj parse_f64 !lschema) then "1" else "0")
   | s -> failwith ("unknown literal op " ^ s)
 
 let is_lit_op = function "lit" | "ldflt" | "lconst" | "lschema" -> true | _ -> false
